@@ -256,6 +256,9 @@ class TreeSim(taps.Sim):
                 self.fire("refused_bad_price")
                 if sec.position != pos0 or parent.capital != cap0:
                     self.violation("c05_refuse_state", "refused allocate at price %r changed state" % price, flags)
+            elif msg.startswith("Cannot allocate capital to ") and not bad_price:
+                # refused although today's quote is fine: no quantity traded where the rule asks for the largest affordable one
+                self.violation("c05_refuse_spurious", "allocate(%r) to %s was refused (%s) although its price on %s is %r" % (amount, name, msg[-40:], parent.now, price), flags)
             raise
         pos1 = sec.position
         cap1 = parent.capital
